@@ -22,7 +22,7 @@ PROFILE = {
     "max_delay_ticks": 8,
 }
 ENTRIES = [f"{a}Policy{v}.{m}" for a in ("", "Async") for v in ("", ".noretry") for m in ("call", "execute")]
-CALLBACKS = ["classifier", "result_classifier", "strategy", "handler", "sleeper", "on_attempt_start", "on_attempt_end", "before_sleep", "on_metric", "on_log"]
+CALLBACKS = ["classifier", "result_classifier", "strategy", "handler", "sleeper", "on_attempt_start", "on_attempt_end", "before_sleep", "on_metric", "on_log", "abort_if"]
 SYNC_FAULTS = ["CallbackFault", "KeyboardInterrupt", "SystemExit"]
 THROWN = ["CancelledError", "KeyboardInterrupt", "SystemExit", "CallbackFault", "close"]
 
@@ -129,7 +129,7 @@ PROP = Property(
         "CircuitOpenError/RetryExhaustedError/AbortRetryError raised by the operation, abort poll index, handler decisions, "
         "entry point in {Policy, AsyncPolicy} x {call, execute} x {retry, no retry}, breaker closed or half-open with this call "
         "as the probe); for that case EVERY crash point is enumerated: the j-th invocation of each callback (classifier, result "
-        "classifier, strategy, sleep handler, sleeper, on_attempt_start/end, hooks) raising an ordinary exception / "
+        "classifier, strategy, sleep handler, sleeper, abort_if, on_attempt_start/end, hooks) raising an ordinary exception / "
         "KeyboardInterrupt / SystemExit (/CancelledError), and for async entries CancelledError / KeyboardInterrupt / SystemExit "
         "/ an ordinary exception thrown into, or close() of, the coroutine at every suspension point (operation awaits and "
         "sleeps). Oracle (public behaviour): after the call returned or raised, advance the clock by recovery_timeout_s; the "
